@@ -144,11 +144,20 @@ def run(ctx):
         rng = ctx.rng
         nf = rng.randint(1, 5)
         X = np.array([[rng.randint(-6, 6) for _ in range(nf)] for _ in range(rng.randint(4, 9))], dtype=float)
+        # degenerate but valid data values: a feature held constant (an input kept at a fixed value, an exactly zero
+        # column), sometimes every feature; a single sample
+        deg = rng.random()
+        if deg < 0.2:
+            X[:, rng.randrange(nf)] = rng.choice([0, 0, 3, -2])
+        elif deg < 0.25:
+            X[:] = X[0]
+        elif deg < 0.3:
+            X = X[:1]
         # the integer-valued data in another valid form: integer dtype, Fortran order, read-only, strided view
         form = st.pick_form(rng, integral=True)
         Xf = st.in_form(X, form)
         for name, est, tag in generators(rng, nf):
-            tag = dict(tag, generator=name, n_features=nf, form=form)
+            tag = dict(tag, generator=name, n_features=nf, form=form, constant_column=bool(np.any(X.max(axis=0) == X.min(axis=0))))
             if name == 'GridCenters' and est.n_points_per_feature ** nf > 300:
                 continue
             try:
